@@ -21,7 +21,8 @@ CONSTANTS Kinds,      \* set of RPC kinds enabled in Next (biases a config to a 
           MaxDeliver, \* longest algorithm delivery
           MaxDepth,   \* history bound for the exhaustive configs
           Cfgs,       \* metric configurations used by CreateStudy
-          AlgoMeta    \* BOOLEAN: the algorithm may write study metadata during SuggestTrials
+          AlgoMeta,   \* BOOLEAN: the algorithm may write study metadata during SuggestTrials
+          EsAlso      \* BOOLEAN: the early-stopping algorithm may decide about other trials / not about the requested one
 
 VARIABLES st, resp, hist
 vars == <<st, resp, hist>>
@@ -39,6 +40,7 @@ AlgoMds == IF AlgoMeta THEN {NoMeta} \cup {OneCell(c, v) : c \in Cells, v \in Va
 SuggestEnvs == [raise : {FALSE}, ps : SeqsUpTo(Params, MaxDeliver), md : AlgoMds]
           \cup [raise : {TRUE}, ps : {<<>>}, md : {NoMeta}]
 StopEnvs == [raise : {FALSE}, stop : BOOLEAN] \cup [raise : {TRUE}, stop : {FALSE}]
+       \cup (IF EsAlso THEN [raise : {FALSE}, stop : BOOLEAN, self : BOOLEAN, also : {SeqOf(S) : S \in SUBSET Ids}] ELSE {})
 FinalOpts == Meas \cup {None}
 Reasons == {"", "r1"}
 Deltas == {[study |-> OneCell(c, v), t |-> 0, t2 |-> 0, trial |-> NoMeta] : c \in Cells, v \in Vals}
@@ -76,7 +78,8 @@ ASuggestTrials == En("SuggestTrials") /\ \E s \in Studies, w \in Clients, n \in 
 AGetOperation == En("GetOperation") /\ \E s \in Studies, w \in Clients, i \in 1..2 :
         Do([rpc |-> "GetOperation", s |-> s, w |-> w, i |-> i])
 ACheckEarlyStopping == En("CheckEarlyStopping") /\ \E s \in Studies, t \in Ids, env \in StopEnvs :
-        Do([rpc |-> "CheckEarlyStopping", s |-> s, t |-> t, env |-> env])
+        /\ t \notin EsAlsoIds(env)
+        /\ Do([rpc |-> "CheckEarlyStopping", s |-> s, t |-> t, env |-> env])
 \* which error wins when a malformed id comes together with a missing trial is left open: t2 = -1 only with t present
 AUpdateMetadata == En("UpdateMetadata") /\ \E s \in Studies, d \in Deltas :
         /\ (d.t2 = -1 => StudyPresent(st, s) /\ Present(st, s, d.t))
